@@ -102,6 +102,12 @@ impl Dir {
             let mut entries = fetch_entries(dir_path.clone())?;
             while let Some(entry) = entries.pop() {
                 if entry.is_file() {
+                    /* a symlink to a file outside of the directory must not be served */
+                    if !entry.canonicalize()?.starts_with(&dir_path) {
+                        crate::warning!("[WARNING] `Route::Dir`: skipping `{}` because it points to outside of `{}`", entry.display(), dir_path.display());
+                        continue
+                    }
+
                     let path_Segments = entry.canonicalize()?
                         .components()
                         .skip(dir_path.components().count())
